@@ -1,7 +1,7 @@
 (* End to end: a one-line document over the safe alphabet renders to <p>escaped line</p>, for
    every length of the line, in a session with the default definitions and nothing pending;
    no diagnostic, no failure, session unchanged. *)
-From Rimu Require Import Base Unicode Regex RegexAnalysis RegexParse Str Types Tables Guards State Inline Block
+From Rimu Require Import Base Unicode Regex RegexSem RegexAnalysis RegexParse Str Types Tables Guards State Inline Block
   Frame FrameBlock FrameInst OptionsLemmas MiscLemmas MoreLemmas Plain Lines TableFacts.
 From Coq Require Import Lia.
 Local Open Scope monad_scope.
@@ -145,8 +145,6 @@ Lemma para_facts :
   dblocks_default = removelast dblocks_default ++ [para] /\ length (removelast dblocks_default) = 8%nat.
 Proof. vm_compute. repeat split. Qed.
 
-Lemma takeN_all (l : str) : takeN (lenN l) l = l.
-Proof. rewrite <- (app_nil_r l) at 2. apply takeN_app_exact. Qed.
 
 Lemma dot_star_loop (h : N -> caps -> caps) : forall rest fuel cnt last i p c,
   nlfree rest -> (length rest < length fuel)%nat ->
